@@ -1,9 +1,11 @@
 import QcelVerif.Model.ToString
+import QcelVerif.Model.ToStringSrc
 import QcelVerif.Lib.Proto
 /-!
 Line-protocol driver for the C08 model.  One case per line, fields separated by `|`:
 
-  0 dtype | 1 req (D,B,A,nm,pm) | 2 atom_format (N or h<hex>) | 3 ghost_format | 4 width | 5 prec
+  0 dtype (lower-case name, or `raw:h<hex>` = the caller's string as given: the model lower-cases it)
+  | 1 req (D,B,A,nm,pm, or `raw:h<hex>` = the caller's `units=` string as given: the model applies capitalize()/lower()) | 2 atom_format (N or h<hex>) | 3 ghost_format | 4 width | 5 prec
   | 6 stored (B,A) | 7 input_units_to_au (N or rational) | 8 bohr2angstroms | 9 1.0/bohr2angstroms
   | 10 conversion_factor(stored, units) (N or rational) | 11 name (N or h<hex>) | 12 charge | 13 mult
   | 14 fragment_separators (comma) | 15 fragment_charges | 16 fragment_multiplicities | 17 fix_com | 18 fix_orientation
@@ -53,6 +55,18 @@ def parseReq? (s : String) : Option Req :=
   match s with
   | "D" => some .dflt | "B" => some .bohr | "A" => some .angstrom | "nm" => some .nm | "pm" => some .pm
   | _ => none
+
+/-- field 0: a dtype name, or the caller's raw string (`raw:h<hex>`) which the model lower-cases itself -/
+def parseDtypeField? (s : String) : Option Dtype :=
+  match s.toList with
+  | 'r' :: 'a' :: 'w' :: ':' :: t => (unhex? (String.ofList t)).bind QcelVerif.ToString.Src.dtypeOfRaw
+  | _ => parseDtype? s
+
+/-- field 1: a request code, or the caller's raw `units=` string (`raw:h<hex>`) -/
+def parseReqField? (s : String) : Option Req :=
+  match s.toList with
+  | 'r' :: 'a' :: 'w' :: ':' :: t => (unhex? (String.ofList t)).bind QcelVerif.ToString.Src.reqOfRaw
+  | _ => parseReq? s
 
 def parseStored? (s : String) : Option SUnit :=
   match s with | "B" => some .bohr | "A" => some .angstrom | _ => none
@@ -116,8 +130,8 @@ def stepC08 (line : String) : String :=
   match splitOnChar line '|' with
   | [d, rq, af, gf, w, pr, st, iu, b2a, ib2a, cv, nm, ch, mu, sp, fc, fm, fcm, fo, fs, bd, ats] =>
     let parsed : Option (Opts × Nat × Consts × Mol × List (List Coord)) := do
-      let d ← parseDtype? d
-      let rq ← parseReq? rq
+      let d ← parseDtypeField? d
+      let rq ← parseReqField? rq
       let af ← optHex? af
       let gf ← optHex? gf
       let w ← parseNat? w
